@@ -2,9 +2,32 @@ package tcp
 
 import (
 	"io"
+	"net"
 
 	gkm "github.com/go-kit/kit/metrics"
 )
+
+// halfClose is called when the client has finished sending. It passes
+// the end of the client's stream on to the upstream server and waits
+// until the client connection gets closed, which happens when the other
+// copy direction ends or when the server shuts down. The other
+// direction keeps running in the meantime so that a client which closes
+// only the sending side of its connection still receives the reply.
+// It returns immediately if one of the connections does not support it.
+func halfClose(out, in net.Conn) {
+	cw, ok := out.(interface{ CloseWrite() error })
+	if !ok {
+		return
+	}
+	d, ok := in.(interface{ Done() <-chan struct{} })
+	if !ok {
+		return
+	}
+	if cw.CloseWrite() != nil {
+		return
+	}
+	<-d.Done()
+}
 
 // copyBuffer is an adapted version of io.copyBuffer which updates a
 // counter instead of returning the total bytes written.
